@@ -9,8 +9,8 @@ import (
 
 func init() {
 	register(&propDef{
-		id:  "C06",
-		run: runC06,
+		id:          "C06",
+		run:         runC06,
 		explanation: "Static analysis of the code shapes that establish the LSM invariant: (1) every overlap/ordering computation on table bounds uses the configured comparer (no raw byte comparison in the engine); (2) compaction outputs are cut only at user-key boundaries; (3) the table writer rejects out-of-order keys before appending, and the table wrapper records the true first/last key and size; (4) on version install, levels that gained tables pass through the right sort (by number at level 0, by key below) or the binary-search insertion that is only legal for a compaction's own outputs (trivial flag true only from compactionCommit); (5) a compaction's edit deletes exactly its inputs at their levels and adds outputs one level down, and newCompaction always expands its inputs; (6) recovered tables are registered at level 0. Each is a necessary condition; the invariant itself on any actual version (file contents, index arithmetic of getOverlaps, pickMemdbLevel's placement) is NOT decided.",
 		notCovered:  "the invariant on actual versions; getOverlaps' index arithmetic; pickMemdbLevel's level choice; file existence and sizes on disk",
 		assumptions: []string{"sort.Sort sorts; comparer contract"},
@@ -305,11 +305,17 @@ func ruleCompactionEdit(p *Prog, r *Report, rule string) {
 			}), fnName(fn), "deletes-by-file-number", "the deleted table is named by its file number", "delTable number is not t.fd.Num", p.Pos(c.Pos()))
 		}
 		// released on every exit
-		n := countInstr(fn, func(in ssa.Instruction) bool { d, ok := in.(*ssa.Defer); return ok && isCallTo(d, "(*leveldb.compaction).release") })
+		n := countInstr(fn, func(in ssa.Instruction) bool {
+			d, ok := in.(*ssa.Defer)
+			return ok && isCallTo(d, "(*leveldb.compaction).release")
+		})
 		r.Check(n == 1, fnName(fn), "compaction-released", "the compaction's version reference is released on every exit (deferred)", "c.release() is not deferred", p.Pos(fn.Pos()))
 		// build before commit
 		ordPrecede(p, r, fn, "build-before-commit", nil, evCall("(*leveldb.DB).compactionTransact"), "compactionTransact(build)", andPred(evCall("(*leveldb.DB).compactionCommit"), func(in ssa.Instruction) bool {
-			return !argIs(in, 1, func(v ssa.Value) bool { c, ok := v.(*ssa.Const); return ok && c.Value != nil && c.Value.ExactString() == "\"table-move\"" })
+			return !argIs(in, 1, func(v ssa.Value) bool {
+				c, ok := v.(*ssa.Const)
+				return ok && c.Value != nil && c.Value.ExactString() == "\"table-move\""
+			})
 		}), "compactionCommit(\"table\")")
 	}
 	if fn := resolveFn(p, r, "leveldb", "(*tableCompactionBuilder).flush"); fn != nil {
